@@ -3,6 +3,7 @@
 mod c10;
 mod c11;
 mod c13;
+mod c16;
 mod c19;
 mod common;
 
@@ -21,6 +22,7 @@ fn lookup(id: &str) -> Option<(RunFn, CheckFn)> {
         "C10" => (c10::run, c10::check_record),
         "C11" => (c11::run, c11::check_record),
         "C13" => (c13::run, c13::check_record),
+        "C16" => (c16::run, c16::check_record),
         "C19" => (c19::run, c19::check_record),
         _ => return None,
     })
